@@ -10,7 +10,8 @@ package c18
 //             through the FSNode setters and through the *PBDataWithStat producers; the decoded
 //             instant must be Equal, zero time <=> unset.
 //   sizes     generated: FileSize()/DataSize() on file, raw and symlink nodes equal the content
-//             length (inline data + child block sizes for files).
+//             length (inline data + child block sizes for files), also after sequences of
+//             AddBlockSize / RemoveBlockSize / RemoveAllBlockSizes / SetData / re-decode.
 
 import (
 	"fmt"
@@ -342,6 +343,15 @@ type SizeCase struct {
 	Blocks  []uint64 `json:"blocks"`  // file: child block sizes
 	Remove  []int    `json:"remove"`  // file: indexes (mod current count) removed afterwards
 	Perm    uint32   `json:"perm"`
+	Ops     []SizeOp `json:"ops,omitempty"` // file: further edits applied after the steps above
+}
+
+// SizeOp is one later edit of a file node. The sequence decode -> RemoveAllBlockSizes ->
+// AddBlockSize* -> GetBytes is what the dag modifier's truncate does with an existing node.
+type SizeOp struct {
+	Op   string `json:"op"`             // add | remove | removeall | setdata | reload
+	Size uint64 `json:"size,omitempty"` // add: child block size; remove: index (mod current count)
+	Data []byte `json:"data,omitempty"` // setdata: the new inline data
 }
 
 func genSize(t *rapid.T) SizeCase {
@@ -357,12 +367,30 @@ func genSize(t *rapid.T) SizeCase {
 		c.Blocks = rapid.SliceOfN(rapid.OneOf(rapid.Uint64Range(0, 300), rapid.Uint64Range(0, 1<<40),
 			rapid.SampledFrom([]uint64{0, 1, 127, 128, 262144, 1 << 32})), 0, 8).Draw(t, "blocks")
 		c.Remove = rapid.SliceOfN(rapid.IntRange(0, 7), 0, 3).Draw(t, "remove")
+		if rapid.Bool().Draw(t, "edit") {
+			c.Ops = rapid.SliceOfN(rapid.Custom(genSizeOp), 1, 6).Draw(t, "ops")
+		}
 	}
 	return c
 }
 
+func genSizeOp(t *rapid.T) SizeOp {
+	o := SizeOp{Op: rapid.SampledFrom([]string{"add", "add", "remove", "removeall", "removeall", "setdata", "reload", "reload"}).Draw(t, "op")}
+	switch o.Op {
+	case "add":
+		o.Size = rapid.OneOf(rapid.Uint64Range(0, 300), rapid.Uint64Range(0, 1<<40),
+			rapid.SampledFrom([]uint64{0, 1, 127, 128, 262144, 1 << 32})).Draw(t, "size")
+	case "remove":
+		o.Size = rapid.Uint64Range(0, 15).Draw(t, "index")
+	case "setdata":
+		o.Data = kit.Bytes(300).Draw(t, "opdata")
+	}
+	return o
+}
+
 func runSize(c SizeCase) kit.Result {
 	mode := permsToFileMode(c.Perm & 0o7777)
+	var opcls []string
 	want := uint64(len(c.Data))
 	var n *unixfs.FSNode
 	var extra [][]byte // other encodings of the same content through the producer functions
@@ -393,10 +421,63 @@ func runSize(c SizeCase) kit.Result {
 			n.SetData(c.Data2)
 			data = c.Data2
 		}
-		want = uint64(len(data))
-		for _, s := range blocks {
-			want += s
+		sum := func() uint64 {
+			w := uint64(len(data))
+			for _, s := range blocks {
+				w += s
+			}
+			return w
 		}
+		if len(c.Ops) > 16 {
+			return kit.Result{}
+		}
+		seen := map[string]bool{}
+		for i, o := range c.Ops {
+			cl := "op:" + o.Op
+			switch o.Op {
+			case "add":
+				if o.Size > 1<<41 {
+					return kit.Result{}
+				}
+				n.AddBlockSize(o.Size)
+				blocks = append(blocks, o.Size)
+			case "remove":
+				if len(blocks) == 0 {
+					continue
+				}
+				j := int(o.Size % uint64(len(blocks)))
+				n.RemoveBlockSize(j)
+				blocks = append(blocks[:j], blocks[j+1:]...)
+			case "removeall":
+				n.RemoveAllBlockSizes()
+				blocks = blocks[:0]
+				if len(data) > 0 {
+					cl = "op:removeall+inline-data"
+				}
+			case "setdata":
+				n.SetData(o.Data)
+				data = o.Data
+			case "reload":
+				// continue on the decoded form, as code editing a stored node does
+				enc, err := n.GetBytes()
+				if err != nil {
+					return kit.Fail("GetBytes (op %d): %v", i, err)
+				}
+				if n, err = unixfs.FSNodeFromBytes(enc); err != nil {
+					return kit.Fail("FSNodeFromBytes (op %d): %v", i, err)
+				}
+			default:
+				return kit.Result{}
+			}
+			if !seen[cl] {
+				seen[cl] = true
+				opcls = append(opcls, cl)
+			}
+			if got, w := n.FileSize(), sum(); got != w {
+				return kit.Fail("file: FileSize()=%d after op %d (%s), content length %d (inline %d + %d child blocks)", got, i, o.Op, w, len(data), len(blocks))
+			}
+		}
+		want = sum()
 		if n.NumChildren() != len(blocks) {
 			return kit.Fail("NumChildren()=%d, %d block sizes were kept", n.NumChildren(), len(blocks))
 		}
@@ -440,7 +521,7 @@ func runSize(c SizeCase) kit.Result {
 			return kit.Fail("%s: DataSize()=%d, content length %d (encoding %d)", c.Kind, ds, want, i)
 		}
 	}
-	cls := []string{"kind:" + c.Kind}
+	cls := append([]string{"kind:" + c.Kind}, opcls...)
 	nt := want > 0
 	if c.Kind == "file" && len(c.Blocks) > 0 {
 		cls = append(cls, "file:multiblock")
@@ -453,11 +534,11 @@ func runSize(c SizeCase) kit.Result {
 
 var sizeSpec = kit.Spec[SizeCase]{
 	Prop: "C18", Name: "sizes",
-	Rule:  "file (inline data + 0..8 child block sizes, some removed again, data optionally replaced), raw and symlink nodes with generated content; FileSize() before/after serialization and DataSize() on the FSNode encoding and on the FilePBData/WrapData/SymlinkData encodings must equal the content length; non-trivial = content length > 0",
+	Rule:  "file (inline data + 0..8 child block sizes, some removed again, data optionally replaced, then for half of the cases 1..6 further edits from {AddBlockSize, RemoveBlockSize, RemoveAllBlockSizes, SetData, re-decode from GetBytes} with FileSize() checked after each), raw and symlink nodes with generated content; FileSize() before/after serialization and DataSize() on the FSNode encoding and on the FilePBData/WrapData/SymlinkData encodings must equal the content length; non-trivial = content length > 0",
 	Quick: 15000, Thorough: 60000,
 	Gen: genSize, Run: runSize,
 	Sample: func(c SizeCase) any {
-		return map[string]any{"kind": c.Kind, "data_len": len(c.Data), "blocks": c.Blocks, "remove": c.Remove, "replace": c.Replace}
+		return map[string]any{"kind": c.Kind, "data_len": len(c.Data), "blocks": c.Blocks, "remove": c.Remove, "replace": c.Replace, "ops": len(c.Ops)}
 	},
 }
 
